@@ -85,7 +85,19 @@ def cases(draw, name):
     pars.pop("scale", None)
     pars.pop("background", None)
     nmodes = len(info.radius_effective_modes or [])
-    return {"model": name, "pars": pars, "source": src,
+    # relative widths of size distributions are pure numbers: they stay as they are under the rescaling, and every
+    # relation must hold for the dispersity average too.  Only parameters whose limits are scale-invariant (0 or
+    # -inf below, inf above) are dispersed, so that the limits cut the same points before and after.
+    pd = {}
+    cands = [pname for pname, p in S.expanded_parameters(info)
+             if p.polydisperse and p.type != "orientation" and p.relative_pd and p.limits[1] == math.inf
+             and p.limits[0] in (0, -math.inf) and not S._is_integer_like(p)]
+    if cands and draw(st.integers(0, 2)) == 0:
+        for pname in draw(st.lists(st.sampled_from(cands), min_size=1, max_size=2, unique=True)):
+            spec = draw(S.pd_spec(True, max_npts=15 if c01.eval_time(name) < 2e-4 else 3, allow_cut=False))
+            pd.update({pname + "_pd": spec["width"], pname + "_pd_n": spec["n"], pname + "_pd_nsigma": spec["nsigma"],
+                       pname + "_pd_type": spec["type"]})
+    return {"model": name, "pars": pars, "source": src, "pd": pd,
             "lam": S.sig(10 ** draw(st.floats(math.log10(0.3), math.log10(3.0))), 5),
             "mu": S.sig(10 ** draw(st.floats(math.log10(0.3), math.log10(3.0))), 5),
             "q": draw(S.q1d(3, 5, lo=-3.0, hi=-0.3)),
@@ -138,74 +150,92 @@ def check_scaling(case, rec):
         if UNIT_EXP[p.units] != 0:
             lengths.append(full[pname])
     full["scale"], full["background"] = 1.0, 0.0
+    full.update(case.get("pd") or {})
+    if case.get("pd"):
+        rec.cls("dispersed")
+    rec.cls("model:" + name, "source:" + case["source"])
+    rec.nontrivial(not (0.95 <= lam <= 1.05) and len(set(lengths)) >= 2, case)
+    q = np.array(case["q"], float)
+    k1 = model.make_kernel([q])
+    k2 = model.make_kernel([q / lam])
+    has_sld = any(p.type == "sld" for _n, p in S.expanded_parameters(info))
+
     def rescale(base):
         out = dict(base)
         for pname, p in S.expanded_parameters(info):
             if p.type != "magnetic" and UNIT_EXP[p.units]:
                 out[pname] = base[pname] * lam ** UNIT_EXP[p.units]
         return out
-    scaled, sldmu = rescale(full), dict(full)
-    for pname, p in S.expanded_parameters(info):
-        if p.type == "sld":
-            sldmu[pname] = full[pname] * mu
-    rec.cls("model:" + name, "source:" + case["source"])
-    rec.nontrivial(not (0.95 <= lam <= 1.05) and len(set(lengths)) >= 2, case)
-    q = np.array(case["q"], float)
-    k1 = model.make_kernel([q])
-    k2 = model.make_kernel([q / lam])
-    a = np.asarray(direct_model.call_kernel(k1, dict(full), cutoff=0.0), float)
-    b = np.asarray(direct_model.call_kernel(k2, dict(scaled), cutoff=0.0), float)
-    c = direct_model.call_kernel(k1, dict(sldmu), cutoff=0.0)
-    dev, n = _cmp(b, a * lam ** 3)
-    if n:
-        rec.cls("compared:lambda3")
-    if dev > TOL:
+
+    def relations(base, classify):
+        """[(bucket, detail)] of the relations that fail at parameter point *base*."""
+        out = []
+        scaled, sldmu = rescale(base), dict(base)
+        for pname, p in S.expanded_parameters(info):
+            if p.type == "sld":
+                sldmu[pname] = base[pname] * mu
+        a = np.asarray(direct_model.call_kernel(k1, dict(base), cutoff=0.0), float)
+        b = np.asarray(direct_model.call_kernel(k2, dict(scaled), cutoff=0.0), float)
+        dev, n = _cmp(b, a * lam ** 3)
+        if n and classify:
+            rec.cls("compared:lambda3")
+        if dev > TOL:
+            out.append(("lambda3:" + name + _as_power(a, b, lam),
+                        "lambda=%g: I(q/l; scaled p)/(l^3 I(q;p)) - 1 = %.3g; I=%r I'=%r pars=%r pd=%r"
+                        % (lam, dev, a, b, case["pars"], case.get("pd"))))
+        if has_sld:
+            c = direct_model.call_kernel(k1, dict(sldmu), cutoff=0.0)
+            dev, n = _cmp(c, np.asarray(a) * mu ** 2)
+            if n and classify:
+                rec.cls("compared:mu2")
+            if dev > TOL:
+                out.append(("mu2:" + name, "mu=%g: I(mu*slds)/(mu^2 I) - 1 = %.3g; I=%r I'=%r" % (mu, dev, a, c)))
+        if info.have_Fq or info.parameters.form_volume_parameters:
+            try:
+                fa = dict(base, radius_effective_mode=case["mode"])
+                fb = dict(scaled, radius_effective_mode=case["mode"])
+                _, _, ra, sa, rata = direct_model.call_Fq(k1, fa, cutoff=0.0)
+                _, _, rb, sb, ratb = direct_model.call_Fq(k2, fb, cutoff=0.0)
+            except NotImplementedError:
+                return out
+            reports_volume = not (sa == 1.0 and sb == 1.0)   # 1.0 is the library's "no volume" placeholder
+            if reports_volume and np.isfinite(sa) and sa > 0 and np.isfinite(sb):
+                if classify:
+                    rec.cls("compared:volume")
+                if abs(sb / (sa * lam ** 3) - 1) > TOL:
+                    out.append(("shell-volume:" + name + _as_power([sa], [sb], lam),
+                                "V_shell %r -> %r, expected x%g" % (sa, sb, lam ** 3)))
+                fa_, fb_ = sa * rata, sb * ratb
+                if np.isfinite(fa_) and fa_ > 0 and abs(fb_ / (fa_ * lam ** 3) - 1) > TOL:
+                    out.append(("form-volume:" + name + _as_power([fa_], [fb_], lam),
+                                "V_form %r -> %r, expected x%g" % (fa_, fb_, lam ** 3)))
+            if case["mode"] and np.isfinite(ra) and ra > 0:
+                if classify:
+                    rec.cls("compared:reff")
+                if not abs(rb / (ra * lam) - 1) <= TOL:
+                    out.append(("reff:%s:mode%d" % (name, case["mode"]), "R_eff %r -> %r, expected x%g" % (ra, rb, lam)))
+        return out
+
+    failed = relations(full, True)
+    if failed:
         # A piecewise model evaluated exactly on one of its branch thresholds (flexible_cylinder's defaults have
-        # length/kuhn_length = 10, where a coefficient jumps) takes either branch depending on the rounding of
-        # lambda*L/(lambda*b).  That is a discontinuity of the model, not a unit error: a unit error persists on
-        # an open neighbourhood, so the relation is re-examined a relative 1e-6 away from the point.
+        # length/kuhn_length = 10, where a coefficient jumps; a barbell mesh in which a bell radius equals a
+        # cylinder radius sits on the model's validity boundary) takes either branch depending on the rounding
+        # of lambda*x against lambda*y.  That is a discontinuity of the model, not a unit error: a unit error
+        # persists on an open neighbourhood, so the relations are re-examined a relative 1e-6 away from the
+        # point (a distinct factor per parameter) and only those that fail there too are reported.
         moved = dict(full)
         for i, (pname, p) in enumerate(S.expanded_parameters(info)):
             if p.type in ("magnetic", "orientation", "sld") or S._is_integer_like(p):
                 continue
             moved[pname] = full[pname] * (1 + 1e-6 * (0.37 + 0.61 * i))
-        a2 = np.asarray(direct_model.call_kernel(k1, dict(moved), cutoff=0.0), float)
-        b2 = np.asarray(direct_model.call_kernel(k2, rescale(moved), cutoff=0.0), float)
-        dev2, n2 = _cmp(b2, a2 * lam ** 3)
-        if n2 and dev2 <= TOL:
-            rec.cls("threshold-coincidence:" + name)
-        else:
-            rec.fail("lambda3:" + name + _as_power(a, b, lam),
-                     "lambda=%g: I(q/l; scaled p)/(l^3 I(q;p)) - 1 = %.3g (%.3g a relative 1e-6 away); I=%r I'=%r pars=%r"
-                     % (lam, dev, dev2, a, b, case["pars"]))
-    if any(p.type == "sld" for _n, p in S.expanded_parameters(info)):
-        dev, n = _cmp(c, np.asarray(a) * mu ** 2)
-        if n:
-            rec.cls("compared:mu2")
-        if dev > TOL:
-            rec.fail("mu2:" + name, "mu=%g: I(mu*slds)/(mu^2 I) - 1 = %.3g; I=%r I'=%r" % (mu, dev, a, c))
-    if info.have_Fq or info.parameters.form_volume_parameters:
-        try:
-            fa = dict(full, radius_effective_mode=case["mode"])
-            fb = dict(scaled, radius_effective_mode=case["mode"])
-            _, _, ra, sa, rata = direct_model.call_Fq(k1, fa, cutoff=0.0)
-            _, _, rb, sb, ratb = direct_model.call_Fq(k2, fb, cutoff=0.0)
-        except NotImplementedError:
-            return
-        reports_volume = not (sa == 1.0 and sb == 1.0)   # 1.0 is the library's "no volume" placeholder
-        if reports_volume and np.isfinite(sa) and sa > 0 and np.isfinite(sb):
-            rec.cls("compared:volume")
-            if abs(sb / (sa * lam ** 3) - 1) > TOL:
-                rec.fail("shell-volume:" + name + _as_power([sa], [sb], lam),
-                         "V_shell %r -> %r, expected x%g" % (sa, sb, lam ** 3))
-            fa_, fb_ = sa * rata, sb * ratb
-            if np.isfinite(fa_) and fa_ > 0 and abs(fb_ / (fa_ * lam ** 3) - 1) > TOL:
-                rec.fail("form-volume:" + name + _as_power([fa_], [fb_], lam),
-                         "V_form %r -> %r, expected x%g" % (fa_, fb_, lam ** 3))
-        if case["mode"] and np.isfinite(ra) and ra > 0:
-            rec.cls("compared:reff")
-            if not abs(rb / (ra * lam) - 1) <= TOL:
-                rec.fail("reff:%s:mode%d" % (name, case["mode"]), "R_eff %r -> %r, expected x%g" % (ra, rb, lam))
+        again = dict(relations(moved, False))
+        for bucket, detail in failed:
+            kind = bucket.split(":")[0]
+            if any(b2.split(":")[0] == kind for b2 in again):
+                rec.fail(bucket, detail + " (also a relative 1e-6 away)")
+            else:
+                rec.cls("threshold-coincidence:" + name)
 
 
 CHECKS = {"scaling": check_scaling}
